@@ -52,6 +52,55 @@ CHECKS = {
          "with sentinels detecting writes to the output variable on failure."),
    note=TB + "Float→integer casts outside the target range are undefined in C and are excluded on both sides ('unspec').",
    technique='equational theorems over all values in Lean 4 + differential correspondence on the boundary grid', ref='§5 C07'),
+ 'C08': dict(
+   text=("Theorems for every spelling of the numeric rules' languages (sign, any digit string, L/LL): C08_parse_integer / C08_integer / "
+         "C08_integer64 (decimal, or octal with a leading 0; int when it fits 32 bits, else int64, an L suffix forcing int64; rejected when "
+         "not representable or when an octal literal holds 8/9), C08_parse_hex / C08_hex / C08_hex64 (the 32/64-bit pattern spelled, rejected "
+         "beyond the width), C08_wrap*_pattern, C08_float (rejected exactly when the correctly rounded value is infinite), "
+         "C08_ofRat_not_nan, and C08_actions which ties rules 37-41 of the compiled scanner to those catalogued actions (their C text is "
+         "re-translated from scanner.c on every run). libconfig_parse_integer/parse_hex64/atof are tied by correspondence; an independent "
+         "Python big-integer / correctly-rounded float reading of each literal is the direct oracle (boundaries 2^31, 2^32, 2^63, 2^64, "
+         "1..22 digits, floats with up to 300 digits and exponents -400..400)."),
+   note=TB + "Correct rounding of the decimal-to-binary conversion itself is glibc's (strtod) and is compared with the exact Lean implementation and with Python's float() on every run; it is not proved.",
+   technique='theorems over all spellings in Lean 4 + translated action catalogue + differential correspondence with an exact-arithmetic oracle', ref='§5 C08'),
+ 'C09': dict(
+   text=("History independence proved: the error record and result of a read (C09_read_independent, C09_readCore_independent) and of "
+         "config_write_file (C09_write_independent) are functions of the call, the file system and the configuration's attributes only; "
+         "C09_read_success (type none), C09_read_failure (parse error, or exactly the I/O record when the file cannot be opened), "
+         "C09_parse_failure_text (every parser failure carries a message; induction over the parser loop), C09_string_no_include_file, "
+         "C09_write_result. Tied to the code by correspondence on ALL histories up to the length bound over 14 event kinds (ok/failing "
+         "reads of each error kind at different lines and in an included file, through the three entry points, missing file, directory, "
+         "ok/failing writes), with the isolated expectation of each event as direct oracle."),
+   note=TB + "The C++ exception mapping of the same record is checked under C17.",
+   technique='history-independence theorems in Lean 4 (incl. parser-loop invariants) + exhaustive-to-bound history correspondence', ref='§5 C09'),
+ 'C12': dict(
+   text=("For every configuration and every outcome of the I/O steps (an arbitrary oracle): C12_iff (success is reported exactly when open, "
+         "every write incl. the flush, the requested fsync and the close succeeded), C12_success_complete (then the file holds exactly "
+         "config_write's bytes), C12_failure_reported (error type FILE_IO), C12_call_order (flush before fsync, close last). The control "
+         "flow model is tied to config_write_file by fault enumeration on the real code: RLIMIT_FSIZE = n for byte offsets n across the "
+         "output (all of them in the thorough tier for outputs up to 6000 bytes), /dev/full, missing directory, directory as target, "
+         "interposed failing fsync() and fclose(), fsync option off/on, outputs smaller and larger than the stdio buffer."),
+   note=TB + "stdio's reporting of failed write(2) calls through fflush/ferror and the kernel are trusted.",
+   technique='decision-logic theorems over an I/O fault oracle in Lean 4 + fault enumeration correspondence', ref='§5 C12'),
+ 'C15': dict(
+   text=("Locale state machine (process-wide radix, optional thread locale): C15_inside (radix '.' inside every read/write), C15_restore "
+         "(override then restore is the identity on the locale state — the repaired defect is the negative example), C15_global_untouched, "
+         "C15_results/C15_independent (a computation between override and restore does not depend on the locale set-up). Tied to the code "
+         "with a comma-decimal locale synthesised offline: global C/comma x thread none/comma, through the three read entry points, "
+         "config_write, config_write_file + read back; observed: written text, round trip, uselocale(NULL) identity, setlocale(LC_ALL,NULL), "
+         "printf radix before/after."),
+   note=TB + "Only the radix character is modelled; the C++ wrappers call the same C functions (checked under C17).",
+   technique='state-machine theorems in Lean 4 + differential correspondence under a synthesised comma-decimal locale', ref='§5 C15'),
+ 'C20': dict(
+   text=("C20_chunking: the generated matcher's result (rule, length) is independent of how the input is cut into buffer refills "
+         "(scanPartial_append, for every table set, every chunking, no size bound); C20_string_stream: the string and stream entry points "
+         "are the same function of a NUL-free text; C20_file_is_stream_core. Tied to the code by reading the same bytes through "
+         "config_read_string, config_read on fmemopen and on an fopencookie stream delivering 1/7/4095/4096/8191/8192/8193/random-sized "
+         "pieces, and config_read_file, with every token kind slid across the 8 KiB, 16 KiB (and 32 KiB) boundaries; direct oracle: equal "
+         "result, error text, line and tree."),
+   note=TB + "Equality of the file entry point with the others up to the reported file name is checked by correspondence, the theorem covers string/stream; "
+        "flex's buffer pointer arithmetic (yy_get_next_buffer) is generated code outside the model, exercised under ASan.",
+   technique='chunking-independence theorem in Lean 4 + differential correspondence at buffer boundaries', ref='§5 C20'),
  'C16': dict(
    text=("Conservation theorems: with a destructor registered, every operation (C16_conservation) and every read "
          "(C16_conservation_read, by an invariant over the parser loop) logs exactly the hooks that leave the tree — as a permutation "
@@ -72,7 +121,7 @@ CHECKS = {
    technique='structural-induction theorems about the writer model in Lean 4 + byte-exact differential correspondence', ref='§5 C19'),
 }
 
-READY = ['C04', 'C06', 'C07', 'C16', 'C19']
+READY = ['C04', 'C05', 'C06', 'C07', 'C08', 'C09', 'C12', 'C15', 'C16', 'C19', 'C20']
 NOT_YET = "check under construction in this round (model part exists, no registered check yet); see DESIGN.md §9"
 
 def main():
